@@ -73,7 +73,81 @@ def _pred_params(fn, callee):
     return out
 
 
+MUTABLE_CALLS = {"bytearray", "list", "dict", "set", "array", "defaultdict", "deque", "OrderedDict", "Counter", "BytesIO"}
+
+
+def _is_mutable_value(v):
+    """does the expression build (or contain) a mutable object? literals, comprehensions, constructor calls"""
+    if isinstance(v, (ast.List, ast.Dict, ast.Set, ast.ListComp, ast.DictComp, ast.SetComp)):
+        return True
+    if isinstance(v, ast.Call):
+        f = v.func
+        name = f.id if isinstance(f, ast.Name) else f.attr if isinstance(f, ast.Attribute) else ""
+        if name in MUTABLE_CALLS:
+            return True
+        return any(_is_mutable_value(a) for a in v.args)
+    if isinstance(v, ast.Tuple):
+        return any(_is_mutable_value(e) for e in v.elts)
+    return False
+
+
+def module_state(paths):
+    """Everything through which one codec call could influence a later one, from the AST of the codec modules:
+    `global`/`nonlocal` declarations inside functions, module-level names bound to a mutable object that some
+    function reads (a scratch buffer, a memo), and memoising decorators. Sorted `file:function:what` strings."""
+    out = []
+    for path in paths:
+        try:
+            tree = ast.parse(path.read_text())
+        except Exception as e:  # noqa
+            out.append(f"{path.name}:<unparsable: {type(e).__name__}>")
+            continue
+        mutable = set()
+        for st in tree.body:
+            tgt, val = None, None
+            if isinstance(st, ast.Assign):
+                tgt, val = st.targets, st.value
+            elif isinstance(st, ast.AnnAssign) and st.value is not None:
+                tgt, val = [st.target], st.value
+            elif isinstance(st, ast.AugAssign):
+                tgt, val = [st.target], st.value
+            if tgt is not None and _is_mutable_value(val):
+                for t in tgt:
+                    for n in ast.walk(t):
+                        if isinstance(n, ast.Name):
+                            mutable.add(n.id)
+        for fn in ast.walk(tree):
+            if not isinstance(fn, (ast.FunctionDef, ast.AsyncFunctionDef)):
+                continue
+            for d in fn.decorator_list:
+                if "cache" in ast.unparse(d):
+                    out.append(f"{path.name}:{fn.name}:@{ast.unparse(d)}")
+            params = {a.arg for a in fn.args.args + fn.args.kwonlyargs + fn.args.posonlyargs}
+            stored = {n.id for n in ast.walk(fn) if isinstance(n, ast.Name) and isinstance(n.ctx, ast.Store)}
+            for n in ast.walk(fn):
+                if isinstance(n, (ast.Global, ast.Nonlocal)):
+                    for nm in n.names:
+                        out.append(f"{path.name}:{fn.name}:{type(n).__name__.lower()} {nm}")
+                elif isinstance(n, ast.Name) and isinstance(n.ctx, ast.Load) and n.id in mutable \
+                        and n.id not in params and n.id not in stored:
+                    out.append(f"{path.name}:{fn.name}:reads module-level mutable {n.id}")
+            for a in fn.args.defaults + [d for d in fn.args.kw_defaults if d is not None]:
+                if _is_mutable_value(a):
+                    out.append(f"{path.name}:{fn.name}:mutable default argument")
+    return sorted(set(out))
+
+
 def gen_compression(ctx):
+    state = module_state([SRC, SRC.parent / "rle.py"])
+    ctx.extra["codec_module_state"] = state
+    try:
+        return _gen_compression(ctx, state)
+    except Infra:
+        # the tables cannot be regenerated; still record the statelessness table so that its tie is judged
+        raise
+
+
+def _gen_compression(ctx, state):
     tree = ast.parse(SRC.read_text())
     enc, dec = _func(tree, "encode_rle"), _func(tree, "decode_rle")
     e_expr, d_expr = _assign(enc, "row_size"), _assign(dec, "row_size")
@@ -100,7 +174,11 @@ def gen_compression(ctx):
         "/-- (depth, modulus, width factor) per branch of encode_prediction / decode_prediction -/\n"
         f"def predParamsEnc : List (Nat × Nat × Nat) := {tup(p_enc)}\n"
         f"def predParamsDec : List (Nat × Nat × Nat) := {tup(p_dec)}\n"
+        "/-- everything in compression/__init__.py and rle.py through which one call could influence a later one:\n"
+        "`global`/`nonlocal` declarations, module-level mutable objects read by a function, memoising decorators,\n"
+        "mutable default arguments (the model's codecs are functions of their arguments only) -/\n"
+        "def codecModuleState : List String := [" + ", ".join('"' + x.replace('\\', '\\\\').replace('"', '\\"') + '"' for x in state) + "]\n"
         "end PsdVerif.Generated.Compression\n",
     )
     return {"row_size_enc": ast.unparse(e_expr), "row_size_dec": ast.unparse(d_expr), "formats": f_enc,
-            "item_sizes": sizes, "pred_enc": p_enc, "pred_dec": p_dec, "grid": len(table)}
+            "item_sizes": sizes, "pred_enc": p_enc, "pred_dec": p_dec, "grid": len(table), "module_state": state}
